@@ -60,7 +60,7 @@ def inv (j : Jones α) : R (Jones α) := do
   pure ⟨d*j.j11, (-d)*j.j01, (-d)*j.j10, d*j.j00⟩
 
 def isDiagonal [DecidableEq α] (j : Jones α) : Bool :=
-  (j.j01 == (zero : Cx α)) && (j.j10 == (zero : Cx α))
+  decide (j.j01 = (zero : Cx α)) && decide (j.j10 = (zero : Cx α))
 
 /-- argument of the square root in `Jones::p()` : `1 - 4 d/(tr*tr)` with real parts -/
 def pSq (j : Jones α) : R α := do
